@@ -24,8 +24,8 @@ func init() {
 
 var allPerms = []string{"join", "join-read-only", "join-read-replica", "remove", "execute", "query", "status", "ready", "backup", "load", "snapshot", "leader-ops", "ui"}
 
-// genCase draws one credential store from the small universe {u1, u2, *} x
-// {each single permission, subsets, all, none}.
+// genCase draws one credential store from the small universe {u1, u2, *,
+// nameless entry} x {each single permission, subsets, all, none}.
 func genCase(c *vf.Ctx, no int) caseDef {
 	r := c.Rand(uint64(no))
 	cd := caseDef{No: no}
@@ -39,7 +39,7 @@ func genCase(c *vf.Ctx, no int) caseDef {
 		}
 		return
 	}
-	switch no % 6 {
+	switch no % 7 {
 	case 0:
 		cd.Variant = "partition"
 		a, b := partition()
@@ -60,7 +60,7 @@ func genCase(c *vf.Ctx, no int) caseDef {
 		cd.Users = []userDef{{Name: "u1", Pass: "pw-u1", Perms: a}, {Name: "*", Perms: star}, {Name: "u2", Pass: "pw-u2", Perms: b}}
 	case 3:
 		cd.Variant = "single-vs-rest"
-		p := allPerms[(no/6)%len(allPerms)]
+		p := allPerms[(no/7)%len(allPerms)]
 		var rest []string
 		for _, q := range allPerms {
 			if q != p {
@@ -87,13 +87,33 @@ func genCase(c *vf.Ctx, no int) caseDef {
 		if r.IntN(3) == 0 {
 			cd.Users = append(cd.Users, userDef{Name: "*", Perms: []string{"ready"}})
 		}
+	case 6:
+		// A credentials file with an entry that names no user (what a mistyped key
+		// such as "user"/"pass" is decoded to): the entry holds permissions, with an
+		// empty or a non-empty password. Nobody can authenticate as it: the rule
+		// demands that a username was supplied.
+		cd.Variant = "nameless-entry"
+		a, b := partition()
+		nameless := userDef{Name: "", Perms: b}
+		if r.IntN(3) == 0 {
+			nameless.Pass = "pw-nameless"
+		}
+		if r.IntN(4) == 0 {
+			nameless.Perms = []string{"all"}
+		}
+		var few []string
+		for len(few) < 2+r.IntN(2) {
+			few = append(few, allPerms[r.IntN(len(allPerms))])
+		}
+		cd.Users = []userDef{{Name: "u1", Pass: "pw-u1", Perms: a}, nameless, {Name: "u2", Pass: "pw-u2", Perms: few}}
 	}
 	return cd
 }
 
 func run(c *vf.Ctx) {
-	c.Rule("case = one credential store drawn from the universe {u1,u2,*} x {partition of the 13 permissions, all vs none, single vs rest, 2-3 permissions, anonymous grants} installed on a live 2-node in-process cluster (HTTP service and inter-node service of both nodes; one variant leaves the follower without any store so that forwarded requests are decided by the leader's inter-node check alone); request = one of 62 HTTP route/method/parameter combinations (every route of ServeHTTP) sent over a raw socket, or one of 19 raw inter-node frames (every Command type), x credential presentation {none, unknown user, wrong password, empty password, right password of each user} x node role {leader, follower}; the expected decision comes from the documented permission table and the C19 rule. non-trivial = request whose verdict was reached (complete response, state compared); distinct by (variant, surface, route, role, presentation, expected decision, store)")
+	c.Rule("case = one credential store drawn from the universe {u1,u2,*,entry without a username} x {partition of the 13 permissions, all vs none, single vs rest, 2-3 permissions, anonymous grants, nameless entry holding permissions with an empty or non-empty password} installed on a live 2-node in-process cluster (HTTP service and inter-node service of both nodes; one variant leaves the follower without any store so that forwarded requests are decided by the leader's inter-node check alone); request = one of 62 HTTP route/method/parameter combinations (every route of ServeHTTP) sent over a raw socket, or one of 19 raw inter-node frames (every Command type), x credential presentation {none, empty username with empty password (empty Basic auth / empty inter-node Credentials), unknown user, wrong password, empty password, right password of each user, empty username with the right / a wrong password of a nameless entry} x node role {leader, follower}; the expected decision comes from the documented permission table and the C19 rule. non-trivial = request whose verdict was reached (complete response, state compared); distinct by (variant, surface, route, role, presentation, expected decision, store)")
 	c.Assume("permission table: execute, query, query+execute for /db/request, backup, load for load and boot, snapshot for snapshot and reap, status for status/nodes/licenses/expvar/pprof, ready, remove, leader-ops, ui; inter-node: the same per command, join for voter join and notify, join-read-only or join-read-replica for non-voter join")
+	c.Assume("decision rule (C19): a permission held by '*' needs no credentials; otherwise a username must have been supplied, so an entry of the credentials file without a username authorizes nobody, whatever its password")
 	c.Assume("routes and commands without a documented permission (/, /console redirect, OPTIONS, unknown path, GET_NODE_META, LOAD_CHUNK, HIGHWATER_MARK_UPDATE, UNKNOWN) are asserted only to disclose nothing and to change nothing")
 	c.Assume("for a method the route does not serve, 401 or 405 both count as refusal")
 	c.Assume("state compared around every refused request: logical SQL dump, raft configuration, leader, snapshot directory of both nodes, and the leader's commit index; a leader change under a request that cannot move leadership is inconclusive")
@@ -101,7 +121,7 @@ func run(c *vf.Ctx) {
 		replay(c)
 		return
 	}
-	n := c.N(6, 160)
+	n := c.N(7, 161)
 	tmp := vf.TempDir("c18")
 	defer os.RemoveAll(tmp)
 	outs := make([]caseOut, n)
